@@ -5,6 +5,20 @@ props = [json.loads(l) for l in open(os.path.join(VERIF, "properties.jsonl"))]
 ids = [p["id"] for p in props]
 
 CHECKS = {
+ "C11": dict(
+   text="Proof: props/C11.v (closed). Wiring: the flattened solver contains no sub-solvers and denotes the same single-level circuit "
+        "(flatten_inline), so by the C02 theorem the hierarchy before and the solver after flatten both have the coefficients of any solve "
+        "of that circuit, for any depth and re-use (flatten_same_matrix). Parameters: the renaming flatten installs on a lifted structure — "
+        "the composition of the sub-solver placement's renaming with the structure's own — delivers under every parameter name that is "
+        "not itself introduced by a renaming exactly what the two nested placements delivered, for every incoming assignment incl. the "
+        "empty one (flatten_compose), provided the names introduced by the outer placement are used nowhere inside (hygienic renamings). "
+        "The tie flattens hierarchies on /repo: wiring stream (matrix vs nested and flat model, absence of sub-solvers) and parameter "
+        "stream (for {} / each single visible parameter / all of them: value used by every leaf after flatten vs model; default_params "
+        "before/after). A third stream with non-hygienic renamings (shadowing, swaps, chains) exhibits known finding F28.",
+   note="Trusted: Coq kernel + vm_compute; models Hier.v/Params.v/Flatten.v tied by sampled correspondence; harness. Follows the fixed "
+        "code (F12, F13, F14). Sub-solvers define no add_param parameters (documented limitation). KNOWN FINDING F28: with shadowing "
+        "renamings flatten() cannot preserve parameter meaning (recorded, not repaired: needs a redesign of the renaming tables).",
+   technique="Coq proof (flatten = inline + composition law of renamings) + vm_compute correspondence before/after flatten", design="§5 C11, §6 F28"),
  "C04": dict(
    text="Proof (normalisation) + oracle-parametrised tie (blocks). props/C04.v (closed): for ANY scalar solve function, the model's sweep "
         "returns at index k the scalar solve at the k-th value of every parameter with scalars and length-1 arrays broadcast "
